@@ -213,6 +213,16 @@ func seqScenario(rng *RNG, model string) string {
 				atomic.StoreInt32(&c.zkErr, int32(1+rng.Intn(2)))
 				ev = "zkerr"
 			}
+			if ev == "move" && rng.Intn(2) == 0 {
+				// ... and while the region is in transition its row is missing from hbase:meta
+				for _, r := range c.regions {
+					if len(r.start) > 0 && r.hiddenN == 0 && rng.Intn(3) == 0 {
+						r.hiddenN = 1 + rng.Intn(2)
+						ev = "move+metahole"
+						break
+					}
+				}
+			}
 			c.mu.Unlock()
 			if ev != "" {
 				steps = append(steps, "E:"+ev)
@@ -671,7 +681,7 @@ func probeFatalScenario() string {
 	c := newSimCluster()
 	r := c.addRegion(nil, []byte("t"), nil, nil, "rs1:1")
 	c.mu.Lock()
-	r.faults = append(r.faults, "PROBE:fatal", "PROBE:fatal", "PROBE:fatal")
+	r.probeAlways = "fatal"
 	c.mu.Unlock()
 	sc := newSimClient(c)
 	defer sc.cl.Close()
